@@ -26,6 +26,8 @@ TABLES = {'pow2ind', 'ind2pow', 'powlrange', 'Lproj', 'directmult', 'powercoeff'
 
 def run(model, rep, tier):
     rep.explanation = __doc__.strip()
+    from ._common import caches_for
+    caches_for(model, rep, 'C16')
     rep.not_decided = 'correctness of the index tables and of the coefficient algebra (evaluation is execution)'
     nspec, nctor = _taylor.override_rule(model, rep)
     rep.floor('3D-specific Taylor3D members', nspec, 9)
